@@ -220,7 +220,11 @@ def execute(plan, want_refs=True, timeout=120.0):
                 pass
     sched = digest([plan["steps"], hist["events"]])
     resd = digest([[r["id"], r["status"], C.rounded(r.get("result"))] for r in recs])
-    return {"violations": violations, "stats": stats, "schedule_digest": sched, "result_digest": resd,
+    discarded = {}
+    for r in recs:
+        if r.get("discarded"):
+            discarded[r["discarded"]] = discarded.get(r["discarded"], 0) + 1
+    return {"discarded": discarded, "violations": violations, "stats": stats, "schedule_digest": sched, "result_digest": resd,
             "probes": hist["probes"], "disk_probes": hist["disk_probes"], "records": recs,
             "open_handles": hist["open_handles"]}
 
